@@ -67,6 +67,24 @@ def register(E):
         E.stats.reach[tag] = E.stats.reach.get(tag, 0) + 1
     I['@verifReach'] = v_reach
 
+    def v_obs_u64(E, args):
+        v = args[1]
+        if is_sym(v) and not z3.is_bool(v):
+            pass
+        elif type(v) is int:
+            v = v & 0xFFFFFFFFFFFFFFFF
+        E.path_obs.append((args[0].decode(), 'u', v))
+    I['@verifObserveU64'] = v_obs_u64
+    I['@verifObserveBool'] = v_obs_u64
+
+    def v_obs_bytes(E, args):
+        E.path_obs.append((args[0].decode(), 'b', E.slice_list(args[1])))
+    I['@verifObserveBytes'] = v_obs_bytes
+
+    def v_obs_str(E, args):
+        E.path_obs.append((args[0].decode(), 'b', list(E.bytes_of(args[1]))))
+    I['@verifObserveStr'] = v_obs_str
+
     def v_note(E, args):
         E.path_notes.append(args)
     I['@verifNote'] = v_note
